@@ -139,13 +139,24 @@ async fn case(run: usize, gen: &mut Gen, out: &mut Out, fixed_shards: usize, now
     for ca in b_writes(gen, wtype) {
         step!("B", bc, ca);
     }
+    // now and then a key is watched a second time (after B may have written it): the first WATCH is the one that counts
+    if watch && gen.rng.gen_range(0..4) == 0 {
+        let again: [&[&str]; 4] = [&["w"], &["w", "q"], &["x", "w"], &["q"]];
+        let ks = again[gen.rng.gen_range(0..again.len())];
+        let mut argv = vec![b("WATCH")];
+        argv.extend(ks.iter().map(|k| b(k)));
+        step!("A", a, (json!({"op": "WATCH", "ks": ks}), argv));
+        for ca in b_writes(gen, wtype) {
+            step!("B", bc, ca);
+        }
+    }
     step!("A", a, ctl("MULTI"));
     for ca in b_writes(gen, wtype) {
         step!("B", bc, ca);
     }
     let nbody = gen.rng.gen_range(0..=3);
     for _ in 0..nbody {
-        let ca = match gen.rng.gen_range(0..15) {
+        let ca = match gen.rng.gen_range(0..16) {
             // multi-key and whole-keyspace commands: on several shards they fan out
             9 => (json!({"op": "MSET", "ks": ["x", "q2", "w2"], "vs": [b("1"), b("2"), b("3")]}), vec![b("MSET"), b("x"), b("1"), b("q2"), b("2"), b("w2"), b("3")]),
             10 => (json!({"op": "MGET", "ks": ["x", "w", "q2", "l"]}), vec![b("MGET"), b("x"), b("w"), b("q2"), b("l")]),
@@ -164,6 +175,8 @@ async fn case(run: usize, gen: &mut Gen, out: &mut Out, fixed_shards: usize, now
             5 => (json!({"op": "BAD"}), vec![b("GET")]),
             6 => ctl("MULTI"),
             7 => (json!({"op": "WATCH", "ks": ["x"]}), vec![b("WATCH"), b("x")]),
+            // UNWATCH between MULTI and EXEC: queued like any command
+            8 => ctl("UNWATCH"),
             _ => (json!({"op": "GET", "k": "w"}), vec![b("GET"), b("w")]),
         };
         step!("A", a, ca);
